@@ -62,6 +62,11 @@ type lossState struct {
 		sentPacketList
 		maxAcked         packetNumber
 		lastAckEliciting packetNumber
+
+		// Packet numbers skipped by skipNumber, in increasing order.
+		// The sent packet list forgets a skipped number once everything
+		// before it has been acked or lost, so remember them here.
+		skipped []packetNumber
 	}
 
 	// Temporary state used when processing an ACK frame.
@@ -184,6 +189,7 @@ func (c *lossState) skipNumber(now time.Time, space numberSpace) {
 	sent.num = c.spaces[space].nextNum
 	sent.time = now
 	sent.state = sentPacketUnsent
+	c.spaces[space].skipped = append(c.spaces[space].skipped, sent.num)
 	c.spaces[space].add(sent)
 }
 
@@ -240,6 +246,17 @@ func (c *lossState) receiveAckStart() {
 // receiveAckRange processes a range within an ACK frame.
 // The ackf function is called for each newly-acknowledged packet.
 func (c *lossState) receiveAckRange(now time.Time, space numberSpace, rangeIndex int, start, end packetNumber, ackf func(numberSpace, *sentPacket, packetFate)) error {
+	// An acknowledgement for a packet number we skipped is an error,
+	// even after the sent packet list has dropped its record of the skip.
+	skipped := c.spaces[space].skipped
+	for i := len(skipped) - 1; i >= 0 && skipped[i] >= start; i-- {
+		if skipped[i] < end {
+			return localTransportError{
+				code:   errProtocolViolation,
+				reason: "acknowledgement for unsent packet",
+			}
+		}
+	}
 	// Limit our range to the intersection of the ACK range and
 	// the in-flight packets we have state for.
 	if s := c.spaces[space].start(); start < s {
@@ -362,6 +379,7 @@ func (c *lossState) discardKeys(now time.Time, log *slog.Logger, space numberSpa
 	c.spaces[space].discard()
 	c.spaces[space].maxAcked = -1
 	c.spaces[space].lastAckEliciting = -1
+	c.spaces[space].skipped = nil
 	c.scheduleTimer(now)
 	if logEnabled(log, QLogLevelPacket) {
 		logBytesInFlight(log, c.cc.bytesInFlight)
